@@ -62,6 +62,9 @@ impl T {
             }
             T::Callable => "typing.Callable".into(),
             T::Iterable => "typing.Iterable".into(),
+            // Rec(3) / Enum(3): declared in another module under the SAME names and shapes as R1 / E1, loaded under an alias
+            T::Rec(3) => "R1twin".into(),
+            T::Enum(3) => "E1twin".into(),
             T::Rec(i) => format!("R{i}"),
             T::Enum(i) => format!("E{i}"),
         }
@@ -283,6 +286,9 @@ fn values() -> Vec<(&'static str, V)> {
         ("range(3)", Range),
         ("R1(a = 1)", Rec(1)),
         ("R2(a = 1)", Rec(2)),
+        ("R1twin(a = 1)", Rec(3)),
+        ("E1twin(\"x\")", EnumV(3)),
+        ("[R1(a = 1), R1twin(a = 1)]", List(vec![Rec(1), Rec(3)])),
         ("E1(\"x\")", EnumV(1)),
         ("E2(\"x\")", EnumV(2)),
         ("[R1(a = 1)]", List(vec![Rec(1)])),
@@ -300,7 +306,7 @@ fn values() -> Vec<(&'static str, V)> {
 }
 
 fn atoms() -> Vec<T> {
-    vec![T::Any, T::Never, T::NoneT, T::Bool, T::Int, T::Float, T::Str, T::List(None), T::Dict(None), T::Set(None), T::TupleAny, T::Callable, T::Iterable, T::Rec(1), T::Rec(2), T::Enum(1), T::Enum(2)]
+    vec![T::Any, T::Never, T::NoneT, T::Bool, T::Int, T::Float, T::Str, T::List(None), T::Dict(None), T::Set(None), T::TupleAny, T::Callable, T::Iterable, T::Rec(1), T::Rec(2), T::Enum(1), T::Enum(2), T::Rec(3), T::Enum(3)]
 }
 
 /// All type expressions of depth <= 2 built with one constructor over atoms or depth-1 types (sampled
@@ -411,7 +417,17 @@ fn types_depth2() -> Vec<T> {
     all
 }
 
+/// A module that declares a record and an enum under the same names and with the same shapes as R1 / E1 of the main
+/// module: distinct types that display identically.
+const TWIN_SRC: &str = "R1 = record(a = int)\nE1 = enum(\"x\", \"y\")\n";
+
+fn twin_module() -> &'static starlark::environment::FrozenModule {
+    static M: std::sync::OnceLock<starlark::environment::FrozenModule> = std::sync::OnceLock::new();
+    M.get_or_init(|| sl::run_and_freeze("twin.star", TWIN_SRC, &sl::RunCfg::default(), &[]).1.expect("twin module"))
+}
+
 const PRELUDE: &str = r#"
+load("twin.star", R1twin = "R1", E1twin = "E1")
 R1 = record(a = int)
 R2 = record(a = int)
 E1 = enum("x", "y")
@@ -487,7 +503,11 @@ fn run_batch(ctx: &Ctx, types: &[T], r: &mut CaseResult) {
     };
     let frozen = starlark::environment::Module::with_temp_heap(|module| {
         {
+            let mut twin_map: std::collections::HashMap<&str, &starlark::environment::FrozenModule> = std::collections::HashMap::new();
+            twin_map.insert("twin.star", twin_module());
+            let loader = starlark::eval::ReturnFileLoader { modules: &twin_map };
             let mut eval = starlark::eval::Evaluator::new(&module);
+            eval.set_loader(&loader);
             sl::setup_eval(&mut eval, &cfg);
             if let Err(e) = eval.eval_module(ast, sl::globals()) {
                 r.fail("type-module-failed", format!("module failed: {}\ntypes: {}", e, types.iter().map(|t| t.src()).collect::<Vec<_>>().join(" ; ")));
@@ -499,13 +519,13 @@ fn run_batch(ctx: &Ctx, types: &[T], r: &mut CaseResult) {
         module.freeze_named(starlark::values::FrozenHeapName::user("a.star")).ok()
     });
     let Some(frozen) = frozen else { return };
-    let mut b = String::from("load(\"a.star\", \"VS\", \"TS\", \"ROWS\", \"R1\", \"R2\", \"E1\", \"E2\", \"afunc\")\n");
+    let mut b = String::from("load(\"a.star\", \"VS\", \"TS\", \"ROWS\", \"R1\", \"R2\", \"E1\", \"E2\", \"afunc\")\nload(\"twin.star\", R1twin = \"R1\", E1twin = \"E1\")\n");
     b.push_str("MF = [row(VS) for row in ROWS]\nVS2 = [\n");
     for (s, _) in &vals {
         b.push_str(&format!("    {s},\n"));
     }
     b.push_str("]\nMF2 = [row(VS2) for row in ROWS]\n");
-    let out = sl::run_src_with("b.star", &b, &cfg, &[("a.star", &frozen)], |m, _| {
+    let out = sl::run_src_with("b.star", &b, &cfg, &[("a.star", &frozen), ("twin.star", twin_module())], |m, _| {
         mats.push(("frozen types, frozen values".into(), grab(m, "MF")));
         mats.push(("frozen types, fresh values".into(), grab(m, "MF2")));
         rust.push(("frozen TypeCompiled::matches".into(), rust_side(m, "TS", "VS")));
